@@ -158,7 +158,7 @@ pub fn run_c05(a: &Args) {
 /// the write half FAILS in the middle of a keep-alive reply (after 0..3 of its 4 bytes: would-block, reset, broken pipe): whatever the
 /// connection then reports, a keep-alive is handed to the caller only once its whole reply has been written - an error is never swallowed
 /// with a truncated reply left on the transport for the caller's next frame to land behind
-fn reply_failure_cases(prop: &str, rt: &tokio::runtime::Runtime, st: &mut Stats) {
+fn reply_failure_cases(prop: &str, rt: &tokio::runtime::Runtime, st: &mut Stats, out: &mut Out) {
     for compressed in [true, false] { for imp in ["B", "A"] { for taken in 0..4usize { for kind in [0u8, 2, 3] { for later_ok in [false, true] {
         st.evaluations += 1; st.bump("write failure inside a keep-alive reply");
         let ka = raw_frame(compressed, 3, 0, &[0]); let other = raw_frame(compressed, 3, 7, &[4]);
@@ -166,6 +166,12 @@ fn reply_failure_cases(prop: &str, rt: &tokio::runtime::Runtime, st: &mut Stats)
         let mut ws: Vec<WEv> = vec![]; if taken > 0 { ws.push(WEv::Accept(taken - 1)); } ws.push(WEv::Fail(kind)); if !later_ok { ws.push(WEv::Fail(kind)); ws.push(WEv::Fail(kind)); }
         let evs = vec![REv::Data(fr.stream()), REv::Eof];
         let (trace, _) = if imp == "B" { session_blocking(&fr, &idx, false, &evs, &ws, 6) } else { session_async(rt, &fr, &idx, false, &evs, &ws, 6) };
+        if imp == "B" {
+            // model: the keep-alive reply on a failing write half (Net/Framed.v reply_then_return)
+            let mut w0: Vec<u8> = vec![]; let mut res = "blocked".to_string();
+            for t in &trace { if let Some(h) = t.strip_prefix('W') { w0.extend(unhex(h)); } else { res = if t == "P0" { "ok".into() } else if let Some(k) = t.strip_prefix("IO") { format!("err{k}") } else if t == "TO" { "err?TO".into() } else { t.clone() }; break; } }
+            if !(kind == 0 && res == "err?TO") { out.case(&format!("kareply {} {}", mode_tag(compressed), ws.iter().map(|w| match w { WEv::Accept(k) => format!("a{k}"), WEv::Pending => "p".into(), WEv::Fail(k) => format!("f{k}") }).collect::<Vec<_>>().join(" ")), &format!("{} {res}", hex(&w0))); }
+        }
         let mut written: Vec<u8> = vec![]; let mut bad: Option<String> = None;
         for t in &trace { if let Some(h) = t.strip_prefix('W') { written.extend(unhex(h)); } else if t == "P0" { if written.len() < 4 || written[..4] != ka[..] { bad = Some(format!("the keep-alive is handed to the caller while the transport holds {} of its reply", if written.is_empty() { "nothing".to_string() } else { hex(&written) })); } break; } }
         if let Some(w) = bad { st.fail(format!("[{prop} {}] {w} (the write half took {taken} byte(s), then failed with {:?}); results {:?}", if imp == "B" { "blocking" } else { "tokio" }, KINDS[kind as usize], trace), format!("kafail {imp} {} {taken} {kind} {}", mode_tag(compressed), later_ok as u8)); }
@@ -245,7 +251,7 @@ pub fn run_c07(a: &Args) {
             }
         }
     }
-    reply_failure_cases("C07", &run.rt, &mut st);
+    reply_failure_cases("C07", &run.rt, &mut st, &mut out);
     // direct check of maybe_pong on typed packets: every kind's default value
     for p in crate::gen::kinds::default_packets() {
         st.evaluations += 1;
@@ -492,7 +498,7 @@ pub fn run_c06(a: &Args) {
             Some((r, ok)) => if shut || !ok || w != want { st.fail(format!("[C06 {}] after the reads {:?} (the peer closed its sending side) a write {} and the transport received {} instead of the frame {}{}", if imp == "B" { "blocking" } else { "tokio" }, r, if ok { "succeeded" } else { "FAILED" }, hex(&w), hex(&want), if shut { "; the connection shut the write half down itself" } else { "" }), id); },
         }
     } } }
-    reply_failure_cases("C06", &rt, &mut st);
+    reply_failure_cases("C06", &rt, &mut st, &mut out);
     // UDP as the transport: a frame handed to write reaches the socket complete and contiguous, i.e. as ONE datagram, at every frame size
     { let iort = crate::c08::io_runtime();
       for compressed in [true, false] { for imp in ["B", "A"] { let (n, w) = crate::c08::all_sizes_written(imp, &iort, compressed); st.evaluations += n as u64; if let Some(w) = w { st.fail(format!("[C06 udp {}] {w}", if imp == "B" { "blocking" } else { "tokio" }), format!("udpsizes {imp} {}", mode_tag(compressed))); } st.add("udp writes of every frame size", n as u64); } } }
